@@ -35,6 +35,8 @@ class S(HasTraits):
     #: a List trait whose default comes from a method (its compiled default
     #: kind is "callable", it is a list trait all the same)
     ld = List(Int)
+    #: a list trait whose own name contains "_items"
+    line_items = List(Int)
 
     def _ld_default(self):
         return [1, 2, 3]
@@ -548,14 +550,15 @@ def restyle_cells(ctx):
     without removal in between (one-way upgraded to mutual, from either end;
     a repeated request); afterwards both directions work, and one removal
     ends the link"""
-    for attr in ("x", "l"):
+    for attr in ("x", "l", "line_items"):
         for second in ("a-mutual", "b-mutual", "a-oneway-again"):
             ctx.case({"cell": "restyle", "attr": attr, "second": second})
             ctx.ev()
             ctx.tr()
             a, b = S(), S()
-            if attr == "l":
-                a.l, b.l = [1, 2], [5]
+            if attr != "x":
+                setattr(a, attr, [1, 2])
+                setattr(b, attr, [5])
             a.sync_trait(attr, b, mutual=False)
             if second == "a-mutual":
                 a.sync_trait(attr, b)
@@ -569,10 +572,10 @@ def restyle_cells(ctx):
                 if attr == "x":
                     o.x = v
                 else:
-                    o.l.append(v)
+                    getattr(o, attr).append(v)
 
             def val(o):
-                return o.x if attr == "x" else list(o.l)
+                return o.x if attr == "x" else list(getattr(o, attr))
             errors = []
             push_exception_handler(handler=handler_recorder(errors),
                                    reraise_exceptions=False, main=True)
